@@ -140,6 +140,70 @@ theorem decorated_send_and_read_exact {P : Bytes → Bool} {cfg : Cfg} {dv : Lin
   · intro b hb
     exact hquiet L t' b hL ht (by rw [← hraw]; exact hb)
 
+/-! ### the real driver patterns under decoration: the platform instances of `Fits` (C01Platform*.lean) compose with the
+    decorated-session theorem — every prompt of every level each core platform pattern admits, every decoration, every
+    segmentation -/
+
+theorem iosxe_decorated_session_exact (cfg : Cfg) (out : Bytes → Bytes) {p : Bytes} (hp : XePrompt p)
+    (hS : ∀ x, cfg.prompt.search x = (splitNL x).any iosxeP)
+    (hstrict : cfg.rough = false) (hret : IsRet cfg.ret) (hwin : p.length < cfg.depth)
+    (D : Nat → Bytes → Bytes) (hD : Decorates D) (stripPrompt : Bool) (inputs : List Bytes)
+    (hg : ∀ i ∈ inputs, GoodCmd iosxeP { out := out, prompt := p, trail := [] } i)
+    (w : Wire) (hw : ∀ x ∈ w.avail, isHws x = true) (hheld : w.held = []) (n : Nat) :
+    ∃ rs w', runCmds cfg (decOnWrite { out := out, prompt := p, trail := [] } D) stripPrompt inputs (w, ([], n)) =
+        some (rs, (w', ([], n + 2 * inputs.length))) ∧
+      rs.map (·.2) = inputs.map (expected cfg { out := out, prompt := p, trail := [] } stripPrompt) ∧
+      w'.writes = w.writes ++ (inputs.map (fun i => [i, cfg.ret])).flatten :=
+  decorated_session_exact (iosxe_fits cfg out hp hS hstrict hret hwin) D hD stripPrompt inputs hg w hw hheld n
+
+theorem iosxr_decorated_session_exact (cfg : Cfg) (out : Bytes → Bytes) {p t : Bytes} (hp : XrPrompt p) (ht : t = [] ∨ t = [32])
+    (hS : ∀ x, cfg.prompt.search x = (splitNL x).any iosxrP)
+    (hstrict : cfg.rough = false) (hret : IsRet cfg.ret) (hwin : (p ++ t).length < cfg.depth)
+    (D : Nat → Bytes → Bytes) (hD : Decorates D) (stripPrompt : Bool) (inputs : List Bytes)
+    (hg : ∀ i ∈ inputs, GoodCmd iosxrP { out := out, prompt := p, trail := t } i)
+    (w : Wire) (hw : ∀ x ∈ w.avail, isHws x = true) (hheld : w.held = []) (n : Nat) :
+    ∃ rs w', runCmds cfg (decOnWrite { out := out, prompt := p, trail := t } D) stripPrompt inputs (w, ([], n)) =
+        some (rs, (w', ([], n + 2 * inputs.length))) ∧
+      rs.map (·.2) = inputs.map (expected cfg { out := out, prompt := p, trail := t } stripPrompt) ∧
+      w'.writes = w.writes ++ (inputs.map (fun i => [i, cfg.ret])).flatten :=
+  decorated_session_exact (iosxr_fits cfg out hp ht hS hstrict hret hwin) D hD stripPrompt inputs hg w hw hheld n
+
+theorem eos_decorated_session_exact (cfg : Cfg) (out : Bytes → Bytes) {p t : Bytes} (hp : EosPrompt p) (ht : t = [] ∨ t = [32])
+    (hS : ∀ x, cfg.prompt.search x = (splitNL x).any eosP)
+    (hstrict : cfg.rough = false) (hret : IsRet cfg.ret) (hwin : (p ++ t).length < cfg.depth)
+    (D : Nat → Bytes → Bytes) (hD : Decorates D) (stripPrompt : Bool) (inputs : List Bytes)
+    (hg : ∀ i ∈ inputs, GoodCmd eosP { out := out, prompt := p, trail := t } i)
+    (w : Wire) (hw : ∀ x ∈ w.avail, isHws x = true) (hheld : w.held = []) (n : Nat) :
+    ∃ rs w', runCmds cfg (decOnWrite { out := out, prompt := p, trail := t } D) stripPrompt inputs (w, ([], n)) =
+        some (rs, (w', ([], n + 2 * inputs.length))) ∧
+      rs.map (·.2) = inputs.map (expected cfg { out := out, prompt := p, trail := t } stripPrompt) ∧
+      w'.writes = w.writes ++ (inputs.map (fun i => [i, cfg.ret])).flatten :=
+  decorated_session_exact (eos_fits cfg out hp ht hS hstrict hret hwin) D hD stripPrompt inputs hg w hw hheld n
+
+theorem nxos_decorated_session_exact (cfg : Cfg) (out : Bytes → Bytes) {p t : Bytes} (hp : NxPrompt p) (ht : t = [] ∨ t = [32])
+    (hS : ∀ x, cfg.prompt.search x = (splitNL x).any nxosP)
+    (hstrict : cfg.rough = false) (hret : IsRet cfg.ret) (hwin : (p ++ t).length < cfg.depth)
+    (D : Nat → Bytes → Bytes) (hD : Decorates D) (stripPrompt : Bool) (inputs : List Bytes)
+    (hg : ∀ i ∈ inputs, GoodCmd nxosP { out := out, prompt := p, trail := t } i)
+    (w : Wire) (hw : ∀ x ∈ w.avail, isHws x = true) (hheld : w.held = []) (n : Nat) :
+    ∃ rs w', runCmds cfg (decOnWrite { out := out, prompt := p, trail := t } D) stripPrompt inputs (w, ([], n)) =
+        some (rs, (w', ([], n + 2 * inputs.length))) ∧
+      rs.map (·.2) = inputs.map (expected cfg { out := out, prompt := p, trail := t } stripPrompt) ∧
+      w'.writes = w.writes ++ (inputs.map (fun i => [i, cfg.ret])).flatten :=
+  decorated_session_exact (nxos_fits cfg out hp ht hS hstrict hret hwin) D hD stripPrompt inputs hg w hw hheld n
+
+theorem junos_decorated_session_exact (cfg : Cfg) (out : Bytes → Bytes) {p t : Bytes} (hp : JunosPrompt p) (ht : t = [] ∨ t = [32])
+    (hS : ∀ x, cfg.prompt.search x = (splitNL x).any junosP)
+    (hstrict : cfg.rough = false) (hret : IsRet cfg.ret) (hwin : (p ++ t).length < cfg.depth)
+    (D : Nat → Bytes → Bytes) (hD : Decorates D) (stripPrompt : Bool) (inputs : List Bytes)
+    (hg : ∀ i ∈ inputs, GoodCmd junosP { out := out, prompt := p, trail := t } i)
+    (w : Wire) (hw : ∀ x ∈ w.avail, isHws x = true) (hheld : w.held = []) (n : Nat) :
+    ∃ rs w', runCmds cfg (decOnWrite { out := out, prompt := p, trail := t } D) stripPrompt inputs (w, ([], n)) =
+        some (rs, (w', ([], n + 2 * inputs.length))) ∧
+      rs.map (·.2) = inputs.map (expected cfg { out := out, prompt := p, trail := t } stripPrompt) ∧
+      w'.writes = w.writes ++ (inputs.map (fun i => [i, cfg.ret])).flatten :=
+  decorated_session_exact (junos_fits cfg out hp ht hS hstrict hret hwin) D hD stripPrompt inputs hg w hw hheld n
+
 /-! non-vacuity: a decoration that puts an SGR sequence in front of every even burst and CR + ESC 7 behind it,
     the example pattern / device / command of C01.lean (output longer than the window), arbitrary cuts — the
     read boundaries may fall anywhere inside the sequences -/
